@@ -47,7 +47,7 @@ func partR(r *ev.Run) {
 		write(d+"/m.risor", "x := \"OUTSIDE: "+d+"/m.risor\"\n")
 	}
 	n := 0
-	for _, rootText := range []string{"root", "./root", "root/", "elsewhere/../root", "."} {
+	for _, rootText := range []string{"root", "./root", "root/", "elsewhere/../root", ".", ""} {
 		for _, moveTo := range []string{"", "elsewhere", "elsewhere/deeper", "root/sub", "root", ".."} {
 			for _, how := range []string{"host", "script"} {
 				for _, imp := range []string{"import m\nm.x", "from sub import n\nn.x", "import sub/n as q\nq.x"} {
@@ -57,7 +57,7 @@ func partR(r *ev.Run) {
 					n++
 					r.Eval(1)
 					start := T
-					if rootText == "." {
+					if rootText == "." || rootText == "" {
 						start = filepath.Join(T, "root")
 					}
 					if err := os.Chdir(start); err != nil {
